@@ -44,6 +44,8 @@ type Engine struct {
 	fset        *token.FileSet
 	fns         map[string]*ssa.Function
 	names       *nameTables
+	sweepOnly   bool
+	inGlobal    bool
 	allocIdx    map[*ssa.Alloc]int
 	curNames    map[string]*fnInfo
 	smt         *SMT
@@ -125,6 +127,9 @@ func (e *Engine) oblige(st *State, kind, label, goal string, tags []string, pos 
 	if !e.wantTags(tags) {
 		return
 	}
+	if e.sweepOnly && !e.inGlobal && kind != "spawn" {
+		return
+	}
 	o := &Oblig{Kind: kind, Func: e.unit, Label: label, Tags: tags, Goal: goal}
 	o.Name = fmt.Sprintf("%s/%s/%s:%s", e.curProp, e.unit, kind, label)
 	if pos.IsValid() {
@@ -149,6 +154,9 @@ func (e *Engine) safety(st *State, kind, label, goal string, pos token.Pos) {
 }
 
 func (e *Engine) cover(st *State, label string) {
+	if e.sweepOnly {
+		return
+	}
 	o := &Oblig{Kind: "cover", Func: e.unit, Label: label, Cover: true}
 	o.Name = fmt.Sprintf("%s/%s/cover:%s", e.curProp, e.unit, label)
 	o.Assume = st.pc.list()
@@ -1416,6 +1424,10 @@ func (e *Engine) execGo(st *State, fr *Frame, x *ssa.Go) {
 		sv[fmt.Sprintf("$%d", i)] = a
 	}
 	e.siteEvent(st, fr, "go", name, sv, x.Pos())
+	if tf := e.fnOf(callee, &x.Call); tf != nil && e.isNewCode(tf) && e.contractFor(name) == nil {
+		// a goroutine whose body did not exist when the contracts were written runs outside every contract
+		e.oblige(st, "spawn", "new-goroutine-body-has-no-contract:"+simpleName(name), "false", nil, x.Pos())
+	}
 	e.bump(st, "spawned:"+name)
 	st.spawned = true
 	// contract preconditions of the spawned function are checked like a call
